@@ -116,6 +116,13 @@ static bool h_read_file(const std::string& path, std::vector<uint8_t>& out)
     h_close(fd);
     return true;
 }
+// removes a file, or a tiff-json directory with its two files, without forking
+static void h_rm(const std::string& p)
+{
+    if (unlink(p.c_str()) == 0 || errno == ENOENT) return;
+    unlink((p + "/data.tif").c_str()); unlink((p + "/metadata.json").c_str());
+    rmdir(p.c_str());
+}
 static void h_rmtree(const std::string& d) { std::string c = "rm -rf '" + d + "'"; if (system(c.c_str())) {} }
 
 // a foreign descriptor is opened and closed around device calls so that freed numbers are reused at once
